@@ -29,7 +29,7 @@ def gen_cases(tier, seed):
         out.append({"seed": s, "n": r.randint(2, 22 if tier == "quick" else 55), "steps": r.randint(3, 14 if tier == "quick" else 25),
                     # one history in five runs in a zone with daylight saving, its clock mapped onto instants around a transition, with
                     # mixed naive / aware representations ("modified times ... compared as instants")
-                    "tz": r.choice(["America/New_York", "Europe/London", "Australia/Lord_Howe", "America/St_Johns", "Europe/Berlin"]) if r.random() < 0.2 else None})
+                    "tz": r.choice(["America/New_York", "Europe/London", "Australia/Lord_Howe", "America/St_Johns", "Europe/Berlin"]) if r.random() < 0.3 else None})
     for i in range(n // 10):
         out.append({"seed": env.seed_for(seed, ID, tier, "file", i), "mode": "file"})  # histories over the bundled file stores (incl. symlinked source paths)
     return out
